@@ -81,6 +81,9 @@ func c27Generated(r *vlib.Run) {
 		oc := c27Compare(r, id, "", w)
 		r.Eval(w.contentKey())
 		r.Class("generated:" + verdictClass(oc))
+		if !oc.stableAccepts && !oc.expAccepts {
+			r.Class("generated both-reject because: " + normMsg(oc.stableErr))
+		}
 		if i == 0 {
 			r.Sample("generated-workspace", w.Files)
 		}
